@@ -126,15 +126,20 @@ def run(ctx):
       fn = c['mode']
       if fn == 'mean' and (ci + oi) % 2:
         fn = 'aggregator'
+      # weights as callers have them: Python ints / floats, NumPy scalars, 0-d NumPy arrays (what jax.device_get returns),
+      # JAX scalars (e.g. an example count computed on device)
+      wkind = ('int', 'float', 'np.float32', 'np.int64', 'ndarray0', 'jax')[(ci + 2 * oi) % 6]
+      conv = {'int': lambda w: w, 'float': float, 'np.float32': np.float32, 'np.int64': np.int64, 'ndarray0': lambda w: np.array(w, np.float32),
+              'jax': lambda w: jnp.asarray(w, jnp.float32)}[wkind]
       if fn == 'sum':
         items = list(trees)
       elif fn == 'mean':
-        items = list(zip(trees, [float(w) if (ci % 2) else w for w in weights]))
+        items = list(zip(trees, [conv(w) for w in weights]))
       else:
-        items = [(b'c%d' % i, t, w) for i, (t, w) in enumerate(zip(trees, weights))]
+        items = [(b'c%d' % i, t, conv(w)) for i, (t, w) in enumerate(zip(trees, weights))]
       src = OnePassSource(items)
       arg = items if container == 'list' else (src if container == 'gen' else map(lambda x: x, src))
-      cfg = dict(fn=fn, inputs=[ins[i] for i in order], leaves=kind, container=container)
+      cfg = dict(fn=fn, inputs=[ins[i] for i in order], leaves=kind, container=container, weight_type=wkind)
       nontrivial = k >= 2 and len({tuple(i['p']) for i in ins}) > 1 and c['den'] > 0
       ctx.case(key=(fn, repr(cfg['inputs']), kind, container), nontrivial=nontrivial)
       replayed += 1
@@ -196,6 +201,25 @@ def run(ctx):
         ctx.violation('replay:clip:value', f'clipped tree {flat.tolist()} differs from the exact {exp.tolist()} for {cfg}', replay={'cfg': cfg})
       elif np.linalg.norm(flat) > bound * (1 + 1e-5):
         ctx.violation('replay:clip:norm', f'norm {np.linalg.norm(flat)} exceeds the bound for {cfg}', replay={'cfg': cfg})
+      elif check_inputs_alive([tree], [snap]):
+        ctx.violation('replay:clip:inputs-harmed', f'{check_inputs_alive([tree], [snap])} for {cfg}', replay={'cfg': cfg})
+  # complex leaves: |3+4j| = 5; the global norm uses the modulus of every entry
+  for (vals, bound) in (([3 + 4j, 0j], 1.0), ([3 + 4j, 0j], 10.0), ([0.6 + 0.8j, 0j, 0j], 0.5), ([1j, 1 + 0j, 1j, -1 + 0j], 1.0), ([3 + 4j, 12 + 0j], 6.5)):
+    for kind in ('jax', 'np'):
+      mk = jnp.array if kind == 'jax' else np.array
+      tree = {'z': mk(np.array(vals, np.complex64)), 'r': mk(np.zeros((2,), np.float32))}
+      snap = [np.array(x) for x in jax.tree_util.tree_leaves(tree)]
+      out = tree_util.tree_clip_by_global_norm(tree, bound)
+      z = np.asarray(out['z'], np.complex128)
+      nrm = float(np.sqrt(np.sum(np.abs(np.array(vals)) ** 2)))
+      exp = np.array(vals, np.complex128) * min(1.0, bound / nrm)
+      clip_n += 1
+      cfg = dict(fn='tree_clip_by_global_norm', complex_leaf=[str(v_) for v_ in vals], max_norm=bound, leaves=kind)
+      ctx.case(key=('clip-complex', repr(vals), bound, kind), nontrivial=nrm > bound)
+      if np.any(np.isnan(z)) or not np.allclose(z, exp, rtol=1e-5, atol=1e-6) or np.any(np.asarray(out['r']) != 0):
+        ctx.violation('replay:clip:complex', f'clipped complex leaf {z.tolist()} differs from the exact {exp.tolist()} (norm {nrm}) for {cfg}', replay={'cfg': cfg})
+      elif abs(float(np.real(tree_util.tree_l2_norm(tree))) - nrm) > 1e-5 * nrm:
+        ctx.violation('replay:clip:complex-norm', f'tree_l2_norm = {tree_util.tree_l2_norm(tree)} but the norm is {nrm} for {cfg}', replay={'cfg': cfg})
       elif check_inputs_alive([tree], [snap]):
         ctx.violation('replay:clip:inputs-harmed', f'{check_inputs_alive([tree], [snap])} for {cfg}', replay={'cfg': cfg})
   ctx.trace_ok(clip_n)
